@@ -148,7 +148,7 @@ theorem inv_conn_run {cfg : Cfg} (hcfg : cfg.serialDB = true ∨ cfg.genGuard = 
 /-- `k` is a value the mutation kills: any value for revoke/delete, any value but the new one for rotate;
 and once the SQL statement has run the database holds no enabled row for `k`. -/
 def PostOK (s : State) (k : Nat) : Prop :=
-  (∀ nv, s.m.kind = .rotate nv → k ≠ nv) ∧
+  ((∀ nv, s.m.kind = .rotate nv → k ≠ nv) ∧ (∀ e, s.m.kind ≠ .setexp e)) ∧
     (s.m.pc ≠ .start → ∀ r, s.sh.db = some r → r.enabled = true → r.hashOf ≠ k)
 
 theorem postOK_step {cfg : Cfg} {s s' : State} {ev : Ev} {k : Nat} (hP : PostOK s k)
@@ -187,7 +187,8 @@ theorem postOK_step {cfg : Cfg} {s s' : State} {ev : Ev} {k : Nat} (hP : PostOK 
           simp only [applyKind, Option.some.injEq] at hr
           subst hr
           simp only
-          exact fun h => hP.1 nv hkind h.symm
+          exact fun h => hP.1.1 nv hkind h.symm
+        | setexp e => exact absurd hkind (hP.1.2 e)
       · subst h1
         intro _ r hr
         rw [hdb] at hr
